@@ -12,14 +12,15 @@ import (
 
 // PlanC15 measures one context-taking operation in isolation.
 type PlanC15 struct {
-	Op        string `json:"op"`        // xsend, xrecv, accept, chsend, process, estab-client, estab-server, finish, tlsup, srvfinish
-	Transport string `json:"transport"` // tcp, tcptls, ws, wss, inproc
-	Cancel    bool   `json:"cancel"`    // cancellation instead of a deadline
-	EndMs     int    `json:"end_ms"`    // when the context ends, from the start of the operation
-	Stage     int    `json:"stage"`     // handshake stage at which the scripted peer goes silent
-	Cap       int    `json:"cap"`       // socket send buffer (bytes) / in-process queue size for "peer not reading"
-	PeerMode  int    `json:"peer_mode"` // 0 silent, 1 not reading (buffers fill), 2 slow reader
-	FarMs     int    `json:"far_ms"`    // with Cancel: the cancelled context also carries a deadline this far beyond its cancellation (0 = none)
+	Op        string `json:"op"`              // xsend, xrecv, accept, chsend, process, estab-client, estab-server, finish, tlsup, srvfinish
+	Transport string `json:"transport"`       // tcp, tcptls, ws, wss, inproc
+	Cancel    bool   `json:"cancel"`          // cancellation instead of a deadline
+	EndMs     int    `json:"end_ms"`          // when the context ends, from the start of the operation
+	Stage     int    `json:"stage"`           // handshake stage at which the scripted peer goes silent
+	Cap       int    `json:"cap"`             // socket send buffer (bytes) / in-process queue size for "peer not reading"
+	PeerMode  int    `json:"peer_mode"`       // 0 silent, 1 not reading (buffers fill), 2 slow reader
+	FarMs     int    `json:"far_ms"`          // with Cancel: the cancelled context also carries a deadline this far beyond its cancellation (0 = none)
+	Trace     bool   `json:"trace,omitempty"` // TCP transports are configured with a TraceWriter
 }
 
 var c15Ops = []string{"xsend", "xrecv", "accept", "chsend", "process", "estab-client", "estab-server", "finish", "tlsup", "srvfinish"}
@@ -36,6 +37,7 @@ func genC15(t *simrt.Tape, tier string) interface{} {
 	if p.Cancel && t.Draw(2) == 0 {
 		p.FarMs = []int{100, 3000, 6000, 20000, 600000}[t.Draw(5)]
 	}
+	p.Trace = t.Draw(4) == 0
 	if p.Op == "tlsup" {
 		p.Transport = "tcptls"
 	}
@@ -142,7 +144,7 @@ func runC15(w *World, pi interface{}) {
 		p.EndMs = 60000
 	}
 	srvTLS, cliTLS := TLSConfigs()
-	conf := FullConf{Listeners: []string{p.Transport}, Enc: []string{"none", "tls"}, Buf: 1}
+	conf := FullConf{Listeners: []string{p.Transport}, Enc: []string{"none", "tls"}, Buf: 1, Trace: p.Trace}
 	cli := CliSpec{Buf: 1, IPBuf: p.Cap % 3, Auth: "guest", Enc: "none"}
 	if p.Transport == "tcptls" {
 		cli.Enc = "tls"
@@ -187,7 +189,7 @@ func runC15(w *World, pi interface{}) {
 		switch p.Transport {
 		case "tcp", "tcptls":
 			w.Net.OnLink = capFault
-			pair, err := TCPPair(w, 7501, &lime.TCPConfig{TLSConfig: cliTLS}, &lime.TCPConfig{TLSConfig: srvTLS}, [2]FaultSpec{NoFaults(), NoFaults()})
+			pair, err := TCPPair(w, 7501, traced(p.Trace, &lime.TCPConfig{TLSConfig: cliTLS}), traced(p.Trace, &lime.TCPConfig{TLSConfig: srvTLS}), [2]FaultSpec{NoFaults(), NoFaults()})
 			if err != nil {
 				return
 			}
@@ -501,7 +503,7 @@ func runC15(w *World, pi interface{}) {
 				}
 			}
 		}()
-		t, err := lime.DialTcp(context.Background(), tcpAddr(7520), &lime.TCPConfig{TLSConfig: cliTLS})
+		t, err := lime.DialTcp(context.Background(), tcpAddr(7520), traced(p.Trace, &lime.TCPConfig{TLSConfig: cliTLS}))
 		if err != nil {
 			return
 		}
@@ -523,7 +525,7 @@ func runC15(w *World, pi interface{}) {
 		var ia lime.InProcessAddr
 		switch sc.Transport {
 		case "tcp":
-			cfg := &lime.TCPConfig{}
+			cfg := traced(p.Trace, &lime.TCPConfig{})
 			if sc.TLSCap {
 				cfg.TLSConfig = srvTLS
 			}
@@ -586,7 +588,7 @@ func init() {
 		Run:    runC15,
 		MaxSim: 2 * time.Hour,
 		Rule: "plans = one context-taking operation per run: {Transport.Send, Transport.Receive, SetEncryption(TLS), Accept, channel SendMessage, ProcessCommand, client EstablishSession at 4 handshake stages, server EstablishSession at 4 stages, client FinishSession, server FinishSession/FailSession towards a client that consumes nothing (optionally after a command that was given up while a response bearing its id came in)} " +
-			"x transport {tcp, tcp+tls, ws, wss, in-process} x peer {silent, not reading with full buffers of several sizes} x {deadline, cancellation} x context end in {0,1,50,900,4990,5010,7300,12000,31000} ms; " +
+			"x transport {tcp, tcp+tls, ws, wss, in-process; TCP transports with or without a TraceWriter} x peer {silent, not reading with full buffers of several sizes} x {deadline, cancellation} x context end in {0,1,50,900,4990,5010,7300,12000,31000} ms; " +
 			"latency is measured on the simulated clock (code runs in zero simulated time); non-trivial = the operation was started; distinct = distinct (plan JSON, event-log hash)",
 	})
 }
